@@ -47,6 +47,7 @@ type Session struct {
 	// in incrementally and every other rule is removed, so that the state equals the
 	// base again when the text is submitted ("any state of the builder/pool").
 	SelfFirst bool    `json:"selffirst"`
+	BaseIncr  bool    `json:"baseincr"` // builder entry points: the base text is installed by an incremental build on the fresh builder
 	Cleared   bool    `json:"cleared"` // the pool is emptied (ClearPoolRules) before the text goes to its update entry points
 	Class     string  `json:"class"`
 	Base      []RDecl `json:"base"`
@@ -289,6 +290,12 @@ func runCompile(s *Session) []Event {
 			}
 			if len(extra) > 0 {
 				_ = rb.RemoveRules(extra)
+			}
+		} else if s.BaseIncr {
+			// an incremental build on a builder that holds nothing yet installs exactly the text's rules
+			if err := rb.BuildRuleWithIncremental(baseText); err != nil {
+				all = append(all, Event{"ev": "cm_base", "ep": ep, "ok": false, "msg": fmt.Sprint(err)})
+				return all
 			}
 		} else if err := rb.BuildRuleFromString(baseText); err != nil {
 			all = append(all, Event{"ev": "cm_base", "ep": ep, "ok": false, "msg": fmt.Sprint(err)})
